@@ -66,6 +66,7 @@ type verifU struct {
 const (
 	verifCoinBancor types.CoinID = 1 // bancor coin with reserve
 	verifCoinToken  types.CoinID = 2 // token (crr 0)
+	verifCoinLP     types.CoinID = 3 // pool token of pool (1,0), when configured
 )
 
 func verifSym(s string) types.CoinSymbol { return types.StrToCoinSymbol(s) }
@@ -203,10 +204,27 @@ func verifUniverse() *verifU {
 		vol[verifCoinBancor].Add(vol[verifCoinBancor], r1)
 		lpSupply = verifBigPos("pool10.lp")
 		verifAssume(lpSupply.Cmp(big.NewInt(1000)) > 0)
-		verifSeedPool(st, verifCoinBancor, 0, r1, r0)
+		id := verifSeedPool(st, verifCoinBancor, 0, r1, r0)
+		if verifConfig("lp10") == 1 {
+			// the pool token of pool (1,0): minted only by liquidity operations,
+			// owner nil; the minimum liquidity sits at the zero address
+			verifAssume(lpSupply.Cmp(maxCoinSupply) <= 0)
+			held := new(big.Int).Sub(lpSupply, big.NewInt(1000))
+			st.Coins.CreateToken(verifCoinLP, LiquidityCoinSymbol(id), "Liquidity Pool", true, true, lpSupply, maxCoinSupply, nil)
+			st.Accounts.SetBalance(types.Address{}, verifCoinLP, big.NewInt(1000))
+			st.Accounts.SetBalance(u.B, verifCoinLP, held)
+			u.coins = append(u.coins, verifCoinLP)
+			st.App.SetCoinsCount(3)
+		}
 	}
 	if verifConfig("pool20") == 1 {
-		r2, r0 := verifBigPos("pool20.r2"), verifBigPos("pool20.r0")
+		var r2, r0 *big.Int
+		if verifConfig("concretePool") == 1 {
+			r2, _ = new(big.Int).SetString("700000000000000000011", 10)
+			r0, _ = new(big.Int).SetString("300000000000000000007", 10)
+		} else {
+			r2, r0 = verifBigPos("pool20.r2"), verifBigPos("pool20.r0")
+		}
 		vol[verifCoinToken].Add(vol[verifCoinToken], r2)
 		verifSeedPool(st, verifCoinToken, 0, r2, r0)
 	}
@@ -221,15 +239,17 @@ func verifUniverse() *verifU {
 	max2 := verifBigPos("coin2.max")
 	verifAssume(vol[verifCoinToken].Cmp(max2) <= 0)
 	st.Coins.CreateToken(verifCoinToken, verifSym("TOK"), "token", true, true, vol[verifCoinToken], max2, &ownerA)
-	st.App.SetCoinsCount(2)
+	if verifConfig("lp10") != 1 {
+		st.App.SetCoinsCount(2)
+	}
 	return u
 }
 
 // verifSeedPool creates pool (c0,c1) with the given reserves directly in the
 // swap module (PairCreate would impose the creation-time minimum liquidity on
 // the reserves, which later trades do not preserve).
-func verifSeedPool(st *state.State, c0, c1 types.CoinID, r0, r1 *big.Int) {
-	st.SwapV2.VerifSeed(c0, c1, r0, r1)
+func verifSeedPool(st *state.State, c0, c1 types.CoinID, r0, r1 *big.Int) uint32 {
+	return st.SwapV2.VerifSeed(c0, c1, r0, r1)
 }
 
 // verifLedger sums every holding of coin c the harness universe knows about,
